@@ -255,7 +255,6 @@ Init == /\ cfg \in CfgIds /\ kind \in Kinds /\ inp \in Inputs
         /\ stage = "enc" /\ tok = inp /\ err = FALSE /\ hnd = FALSE /\ steps = <<>>
         /\ memo = <<>> /\ asked = 0
 
-Q == <<cfg, kind, inp>>
 Keep == UNCHANGED <<cfg, kind, inp, memo, asked>>
 Go(nextStage, t, name, raised) ==
     /\ stage' = nextStage /\ tok' = t /\ steps' = Append(steps, Step(name, t, raised)) /\ UNCHANGED <<err, hnd>> /\ Keep
@@ -313,12 +312,12 @@ Spec == Init /\ [][Next]_vars
 (* ------------------------------------------------------------------------------------------------------ *)
 (* P-layer as a state machine (the most general filter that has the property) and the refinement I => P      *)
 (* ------------------------------------------------------------------------------------------------------ *)
-PAnswer(a) == /\ GoodAnswer(cfg, kind, inp, NfModel(inp), a)
-              /\ \A i \in DOMAIN memo : memo[i].err = a.err /\ (a.err \/ memo[i].out = a.out)
-(* every answer recorded in memo was a legal P-step *)
-IRefinesP == \A i \in DOMAIN memo :
-                 /\ GoodAnswer(cfg, kind, inp, NfModel(inp), memo[i])
-                 /\ Deterministic(memo)
+(* P has one variable, memo, and one action: give answer `a` to the question, provided `a` is good and equals  *)
+(* every earlier answer:  PStep(prev, a) /\ memo' = Append(memo, a).                                          *)
+PStep(prev, a) == /\ GoodAnswer(cfg, kind, inp, NfModel(inp), a)
+                  /\ \A i \in DOMAIN prev : prev[i].err = a.err /\ (a.err \/ prev[i].out = a.out)
+(* refinement: every answer the stage machine has recorded in memo (action Return / ReaskHit) was a P-step    *)
+IRefinesP == \A i \in DOMAIN memo : PStep(SubSeq(memo, 1, i - 1), memo[i])
 (* the pipeline operator (used by the trace spec) and the stage machine agree *)
 PipeAgrees == (stage = "done") =>
                  LET r == Pipe(cfg, kind, inp)
